@@ -57,7 +57,8 @@ enum verif_kind {
 	VK_ANTI_DISCARD,   ///< a=msg, b=previous flags (anti-message consumed without rollback)
 	VK_EARLY_ANTI,     ///< a=msg
 	VK_ROLLBACK_DONE,  ///< a=lp, b=past_i (after coasting forward)
-	VK_EARLY_MATCH     ///< a=msg, b=matching early anti-message
+	VK_EARLY_MATCH,    ///< a=msg, b=matching early anti-message
+	VK_DEQUEUE         ///< a=msg, b=dest lp (message taken from the thread queue, before anything else)
 };
 
 /// The bit pattern of a double, for tracing time stamps
